@@ -1088,3 +1088,35 @@ def dead_statements(ctx: Ctx, fi: FuncInfo,
                 for x in ast.walk(st):
                     dead.add(id(x))
     return dead
+
+
+def swallowing_handlers(ctx: Ctx, entry: FuncInfo, targets: set[str]
+                        ) -> tuple[list[tuple[FuncInfo, ast.ExceptHandler]],
+                                   int]:
+    """Handlers in the call closure of ``entry`` that can complete normally
+    (do not end in ``raise``) around a ``try`` body that reaches one of the
+    ``targets`` (qualified names, closed under calls)."""
+    tq = ctx.cg.closure(targets) if targets else set()
+    bad: list[tuple[FuncInfo, ast.ExceptHandler]] = []
+    n_try = 0
+    for q in sorted(ctx.cg.closure([entry])):
+        fi = ctx.index.functions.get(q)
+        if fi is None:
+            continue
+        for t in ast.walk(fi.node):
+            if not isinstance(t, ast.Try):
+                continue
+            n_try += 1
+            inside = {id(x) for st in t.body for x in ast.walk(st)}
+            reach: set[str] = set()
+            for site in ctx.cg.sites_in(fi):
+                if id(site.node) in inside:
+                    reach |= ctx.cg.closure(
+                        [c.qualname for c in site.callees])
+            if not (reach & tq):
+                continue
+            for h in t.handlers:
+                last = h.body[-1] if h.body else None
+                if not isinstance(last, ast.Raise):
+                    bad.append((fi, h))
+    return bad, n_try
